@@ -27,6 +27,7 @@ import (
 	"seehuhn.de/go/sfnt/cmap"
 	"seehuhn.de/go/sfnt/glyf"
 	"seehuhn.de/go/sfnt/glyph"
+	"seehuhn.de/go/sfnt/mac"
 	"seehuhn.de/go/sfnt/opentype/coverage"
 	"seehuhn.de/go/sfnt/opentype/gdef"
 	"seehuhn.de/go/sfnt/opentype/gtab"
@@ -56,6 +57,11 @@ func (f *Font) Subset(glyphs []glyph.ID) *Font {
 				continue
 			}
 			c = s.SubsetCMap(c)
+			if m, ok := c.(cmap.Format4); ok && key.PlatformID == 1 {
+				// Get has translated the character codes of a Macintosh
+				// subtable to runes.  The subtable stores Mac Roman codes.
+				c = macRomanCodes(m)
+			}
 			res.CMapTable[key] = c.Encode(key.Language)
 		}
 	}
@@ -71,6 +77,18 @@ func (f *Font) Subset(glyphs []glyph.ID) *Font {
 		res.Outlines = s.SubsetGlyf(outlines)
 	}
 
+	return res
+}
+
+// macRomanCodes converts a mapping from runes to glyphs into the mapping
+// from Mac Roman character codes to glyphs.
+func macRomanCodes(m cmap.Format4) cmap.Format4 {
+	res := cmap.Format4{}
+	for code := 0; code < 256; code++ {
+		if gid, ok := m[uint16(mac.DecodeOne(byte(code)))]; ok {
+			res[uint16(code)] = gid
+		}
+	}
 	return res
 }
 
